@@ -2,7 +2,7 @@
     block, levels non-increasing towards the leaves; the marking pass of invalidateSubtree. *)
 From Coq Require Import List ZArith NArith Bool Lia Permutation.
 Import ListNotations.
-From VB Require Import Pop.SmDefs Pop.SmProofs Pop.SmWf Pop.SmCmp.
+From VB Require Import Pop.SmDefs Pop.SmProofs Pop.SmWf Pop.SmTruth Pop.SmCmp.
 Local Open Scope Z_scope.
 
 Notation cblk := (blk ccmd).
@@ -267,4 +267,115 @@ Proof.
     + cbn in Hp |- *. rewrite (Fapp _ _ Fp) in Hp. inversion Hp; subst p. apply (C5 _ _ Fp).
   - intros j x Hx Ha. destruct (Fnew _ _ Hx) as [Hx0|(_ & _ & ->)]; [eapply C3; eassumption|discriminate Ha].
   - intros j x Hx. destruct (Fnew _ _ Hx) as [Hx0|(_ & _ & ->)]; [eapply C5; eassumption|cbn; unfold L_CONNECTED; lia].
+Qed.
+
+(** ** the failing applyBlock: FAILED_POP on the block, FAILED_CHILD on everything below it *)
+Definition actid (l : list cblk) (k : N) : Prop := exists c, bfind l k = Some c /\ b_act _ c = true.
+(* parent-closedness of the applied set, as provided by [wf] *)
+Definition act_closed (l : list cblk) (r : N) : Prop :=
+  actid l r /\ (forall c, bfind l r = Some c -> b_par _ c = r) /\
+  (forall j c, bfind l j = Some c -> b_act _ c = true -> j <> r -> actid l (b_par _ c)).
+
+Lemma marks_inactive : forall l r i t e,
+    NoDup (ids l) -> act_closed l r -> ~ actid l i ->
+    (forall y, In y t -> exists y0, bfind l (b_id _ y) = Some y0 /\ b_par _ y0 = b_par _ y) ->
+    (forall k, In k e -> ~ actid l k) ->
+    forall j, In j (marks i e t) -> ~ actid l j.
+Proof.
+  intros l r i t. induction t as [|y t IH]; intros e ND AC Hi Ht He j Hj; cbn [marks] in Hj; [destruct Hj|].
+  assert (Ht' : forall y0, In y0 t -> exists y1, bfind l (b_id ccmd y0) = Some y1 /\ b_par ccmd y1 = b_par ccmd y0)
+    by (intros; apply Ht; right; assumption).
+  destruct (N.eqb (b_par ccmd y) i || existsb (N.eqb (b_par ccmd y)) e) eqn:C.
+  - assert (Hpy : ~ actid l (b_par ccmd y)).
+    { apply orb_true_iff in C. destruct C as [C|C]; [apply N.eqb_eq in C; rewrite C; exact Hi|].
+      apply existsb_exists in C. destruct C as (k & Hk & Ek). apply N.eqb_eq in Ek. subst k. apply He. exact Hk. }
+    assert (Hy : ~ actid l (b_id ccmd y)).
+    { intros (c & Fc & Ac). destruct (Ht y (or_introl eq_refl)) as (y0 & Fy & Py). rewrite Fy in Fc. inversion Fc; subst c.
+      destruct AC as (Ar & Pr & Cl). destruct (N.eq_dec (b_id ccmd y) r) as [Heq|Hne].
+      - rewrite Heq in Fy. rewrite <- Py, (Pr _ Fy) in Hpy. exact (Hpy Ar).
+      - apply Hpy. rewrite <- Py. eapply Cl; eassumption. }
+    destruct Hj as [<-|Hj]; [exact Hy|].
+    eapply IH; [exact ND|exact AC|exact Hi|exact Ht'| |exact Hj].
+    intros k Hk. destruct (is_failed ccmd y); [apply He; exact Hk|]. destruct Hk as [<-|Hk]; [exact Hy|apply He; exact Hk].
+  - eapply IH; [exact ND|exact AC|exact Hi|exact Ht'|exact He|exact Hj].
+Qed.
+
+Lemma coh_apply_fail : forall l r i b,
+    coh l r -> act_closed l r -> bfind l i = Some b -> is_failed _ b = false -> b_act _ b = false -> i <> r ->
+    coh (mark_desc ccmd i [] (upd ccmd l i (set_fp ccmd))) r.
+Proof.
+  intros l r i b (ND & OR & C1 & C2 & C3 & C5) AC Fi Hnf Hna Hir.
+  set (l1 := upd ccmd l i (set_fp ccmd)).
+  set (M := marks i [] l1).
+  assert (ND1 : NoDup (ids l1)) by (unfold l1; rewrite ids_upd by reflexivity; exact ND).
+  set (g := fun x : cblk => if N.eqb (b_id ccmd x) i then set_fp ccmd x else x).
+  assert (F1 : forall j, bfind l1 j = option_map g (bfind l j)) by (intro; unfold l1; apply find_upd_any; reflexivity).
+  set (h := fun (j : N) (x : cblk) => if existsb (N.eqb j) M then set_fc ccmd (g x) else g x).
+  assert (F : forall j, bfind (mark_desc ccmd i [] l1) j = option_map (h j) (bfind l j)).
+  { intros j. rewrite find_mark_desc by exact ND1. rewrite F1. destruct (bfind l j); reflexivity. }
+  assert (Hpar : forall j x, b_par ccmd (h j x) = b_par ccmd x) by (intros; unfold h, g; destruct (existsb (N.eqb j) M), (N.eqb (b_id ccmd x) i); reflexivity).
+  assert (Hlvl : forall j x, b_lvl ccmd (h j x) = b_lvl ccmd x) by (intros; unfold h, g; destruct (existsb (N.eqb j) M), (N.eqb (b_id ccmd x) i); reflexivity).
+  assert (Hact : forall j x, b_act ccmd (h j x) = b_act ccmd x) by (intros; unfold h, g; destruct (existsb (N.eqb j) M), (N.eqb (b_id ccmd x) i); reflexivity).
+  assert (HinM : forall j, existsb (N.eqb j) M = true <-> In j M).
+  { intros j. rewrite existsb_exists. split; [intros (k & Hk & Ek); apply N.eqb_eq in Ek; subst; exact Hk|intros Hj; exists j; split; [exact Hj|apply N.eqb_refl]]. }
+  assert (Hfail : forall j x, bfind l j = Some x -> is_failed ccmd (h j x) = true -> is_failed ccmd x = true \/ j = i \/ In j M).
+  { intros j x Fx Hf. unfold h, g in Hf. destruct (existsb (N.eqb j) M) eqn:EM; [right; right; apply HinM; exact EM|].
+    destruct (N.eqb (b_id ccmd x) i) eqn:E; [right; left; apply N.eqb_eq in E; rewrite (bfind_id _ _ _ Fx) in E; exact E|left; exact Hf]. }
+  assert (Hfc : forall j x, b_fc ccmd (h j x) = true <-> b_fc ccmd x = true \/ In j M).
+  { intros j x. unfold h, g. destruct (existsb (N.eqb j) M) eqn:EM.
+    - split; [intros _; right; apply HinM; exact EM|intros _; reflexivity].
+    - assert (~ In j M) by (intro Hj; apply HinM in Hj; congruence).
+      destruct (N.eqb (b_id ccmd x) i); cbn; split; intros; tauto. }
+  split; [rewrite <- (ids_strip (mark_desc ccmd i [] l1)), strip_mark_desc, ids_strip; exact ND1|].
+  split; [rewrite (idpar_strip_eq _ _ (strip_mark_desc ccmd l1 i [])); unfold l1; rewrite idpar_upd by (intros; split; reflexivity); exact OR|].
+  split; [|split; [|split]].
+  - intros j c p Hc Hr Hp Hf. rewrite F in Hc, Hp.
+    destruct (bfind l j) as [c0|] eqn:Fc; [|discriminate]. cbn in Hc. inversion Hc; subst c; clear Hc. rewrite Hpar in Hp.
+    destruct (bfind l (b_par ccmd c0)) as [p0|] eqn:Fp; [|discriminate]. cbn in Hp. inversion Hp; subst p; clear Hp.
+    apply Hfc. destruct (is_failed ccmd p0) eqn:Fp0; [left; eapply C1; eassumption|]. right.
+    assert (Hc1 : bfind l1 j = Some (g c0)) by (rewrite F1, Fc; reflexivity).
+    pose proof (find_some_in _ _ _ Hc1) as [Hc1in Hc1id].
+    assert (Hgpar : forall x, b_par ccmd (g x) = b_par ccmd x) by (intro x; unfold g; destruct (N.eqb (b_id ccmd x) i); reflexivity).
+    destruct (Hfail _ _ Fp Hf) as [Hx|[Hx|Hx]]; [congruence| |].
+    + (* child of the failing block *)
+      rewrite <- Hc1id. apply marks_direct; [exact Hc1in|left; rewrite Hgpar; exact Hx].
+    + (* child of a newly marked block: it comes later in the list *)
+      destruct (N.eq_dec (b_par ccmd c0) i) as [Heq|Hqi].
+      { rewrite <- Hc1id. apply marks_direct; [exact Hc1in|left; rewrite Hgpar; exact Heq]. }
+      assert (Hp1 : bfind l1 (b_par ccmd c0) = Some p0).
+      { rewrite F1, Fp. cbn. unfold g. rewrite (bfind_id _ _ _ Fp). destruct (N.eqb (b_par ccmd c0) i) eqn:E; [apply N.eqb_eq in E; contradiction|reflexivity]. }
+      apply in_split in Hc1in. destruct Hc1in as (la & lb & Hl).
+      assert (OR1 : ord_ok r [] (map idpar l1)) by (unfold l1; rewrite idpar_upd by (intros; split; reflexivity); exact OR).
+      pose proof (ord_ok_split r l1 [] la (g c0) lb OR1 Hl) as Ho. rewrite Hc1id in Ho. specialize (Ho Hr). cbn in Ho. rewrite Hgpar in Ho.
+      unfold ids in Ho. apply in_map_iff in Ho. destruct Ho as (p1 & Hp1id & Hp1in).
+      assert (p1 = p0).
+      { assert (In p1 l1) by (rewrite Hl; apply in_or_app; left; exact Hp1in).
+        pose proof (find_in_blocks _ _ ND1 H) as Fq. rewrite Hp1id, Hp1 in Fq. inversion Fq. reflexivity. }
+      subst p1. apply in_split in Hp1in. destruct Hp1in as (lc & ld & Hla).
+      rewrite <- Hc1id.
+      eapply (marks_child l1 i [] p0 (g c0) lc (ld ++ g c0 :: lb)).
+      * rewrite Hl, Hla. rewrite <- app_assoc. reflexivity.
+      * rewrite (bfind_id _ _ _ Fp). exact Hx.
+      * exact ND1.
+      * exact Fp0.
+      * apply in_or_app. right. left. reflexivity.
+      * rewrite Hgpar. symmetry. apply (bfind_id _ _ _ Fp).
+  - intros j c p Hc Hr Hp. rewrite F in Hc, Hp.
+    destruct (bfind l j) as [c0|] eqn:Fc; [|discriminate]. cbn in Hc. inversion Hc; subst c; clear Hc. rewrite Hpar in Hp.
+    destruct (bfind l (b_par ccmd c0)) as [p0|] eqn:Fp; [|discriminate]. cbn in Hp. inversion Hp; subst p; clear Hp.
+    rewrite !Hlvl. eapply C2; eassumption.
+  - intros j x Hx Ha. rewrite F in Hx. destruct (bfind l j) as [x0|] eqn:Fx; [|discriminate]. cbn in Hx. inversion Hx; subst x; clear Hx.
+    rewrite Hact in Ha. rewrite Hlvl. destruct (C3 _ _ Fx Ha) as [Hv Hl]. split; [|exact Hl].
+    destruct (is_failed ccmd (h j x0)) eqn:Hf; [|reflexivity]. exfalso.
+    destruct (Hfail _ _ Fx Hf) as [Hq|[Hq|Hq]]; [congruence| |].
+    + subst j. rewrite Fi in Fx. inversion Fx; subst x0. congruence.
+    + assert (Hn : ~ actid l j).
+      { eapply (marks_inactive l r i l1 []); [exact ND|exact AC| | |intros k []|exact Hq].
+        - intros (c & Fc & Ac). rewrite Fi in Fc. inversion Fc; subst c. congruence.
+        - intros y Hy. unfold l1 in Hy. apply in_upd in Hy. destruct Hy as (y0 & Hy0 & ->).
+          exists y0. assert (Hid : b_id ccmd (if N.eqb (b_id ccmd y0) i then set_fp ccmd y0 else y0) = b_id ccmd y0) by (destruct (N.eqb (b_id ccmd y0) i); reflexivity).
+          rewrite Hid. split; [apply find_in_blocks; assumption|destruct (N.eqb (b_id ccmd y0) i); reflexivity]. }
+      apply Hn. exists x0. split; assumption.
+  - intros j x Hx. rewrite F in Hx. destruct (bfind l j) as [x0|] eqn:Fx; [|discriminate]. cbn in Hx. inversion Hx; subst x; clear Hx.
+    rewrite Hlvl. eapply C5; eassumption.
 Qed.
